@@ -10,7 +10,7 @@ HARNESS_DIR = os.path.join(VERIF, "harness")
 HARNESS = os.path.join(HARNESS_DIR, "target", "release", "sqharness")
 WORK = os.path.join(VERIF, ".work")
 REPLAYS = os.path.join(VERIF, "replays")
-EVIDENCE = os.path.join(VERIF, "evidence")
+EVIDENCE = os.environ.get("VERIF_EVIDENCE_DIR") or os.path.join(VERIF, "evidence")
 ENV = dict(os.environ, CARGO_NET_OFFLINE="true")
 ALLOWED_AXIOMS = {"propext", "Classical.choice", "Quot.sound"}
 FORBIDDEN = re.compile(r"\b(sorry|admit|native_decide|bv_decide|implemented_by|unsafe)\b|^\s*axiom\s|maxHeartbeats\s+0")
